@@ -371,6 +371,13 @@ def _make_objects():
     size = 3
     face._disp_verts = [DispVertex(x, y, Vec(0, 0, 1), float(x + y), Vec(x, 0, 0), Vec(0, 0, 1), 10.0 * x,
                                    TriangleTag.WALKABLE, TriangleTag.FLAT) for y in range(size) for x in range(size)]
+    # multiblend data: one vertex blends, one has zero weights but its own colours, the others have no colour list
+    from srctools.vmf import Vec4
+    face._disp_verts[0].multi_blend = Vec4(0.25, 0.5, 0.0, 1.0)
+    face._disp_verts[0].multi_alpha = Vec4(1.0, 0.0, 0.5, 0.0)
+    face._disp_verts[0].multi_colors = [Vec(1, 0, 0), Vec(0, 1, 0), Vec(0, 0, 1), Vec(0.5, 0.5, 0.5)]
+    face._disp_verts[1].multi_colors = [Vec(0.1, 0.2, 0.3), Vec(0.4, 0.5, 0.6), Vec(0.7, 0.8, 0.9), Vec(0.25, 0.75, 1)]
+    face._disp_verts[2].multi_alpha = Vec4(0.0, 0.0, 0.0, 0.75)
     from array import array as Array
     face.disp_allowed_vert = Array('i', [1, 2, 3, 4, 5, 6, 7, 8, 9, 10])
     face.strata_points = [Vec(1, 2, 3), Vec(4, 5, 6)]
